@@ -1,4 +1,5 @@
 import AC.Props.C04
+import AC.TextCompose
 open AC.Props.C04
 #print axioms C04_compile_decompile
 #print axioms C04_decompile_no_dangling
@@ -7,3 +8,7 @@ open AC.Props.C04
 #print axioms C04_roundtrip_translate
 #print axioms C04_text_of
 #print axioms C04_naming_constants
+#print axioms P.TextCompose.built_wfTree
+#print axioms P.TextCompose.C04_text_build
+#print axioms P.TextCompose.C04_text
+#print axioms P.TextCompose.C04_text_Statement_sized_holds
